@@ -200,6 +200,8 @@ pub struct Model {
     /// some pattern's count went somewhere the properties do not define
     pub counts_unspecified: bool,
     pub effects: Vec<SideEffect>,
+    /// tag(id, seg) of the `panics(msg)` segment that answered the most recent call (its message carries the tag)
+    pub last_explicit: Option<u32>,
 }
 
 impl Model {
@@ -253,6 +255,7 @@ impl Model {
             mock_errors: 0,
             counts_unspecified: false,
             effects: vec![],
+            last_explicit: None,
         })
     }
 
@@ -401,7 +404,10 @@ impl Model {
             Resp::ReturnsDefault => Outcome::Value(0),
             Resp::Answers | Resp::AnswersArc => Outcome::Value(tag(id, seg)),
             Resp::AnswersUserPanic => Outcome::Panic(PanicKind::User),
-            Resp::Panics => Outcome::Panic(PanicKind::Explicit),
+            Resp::Panics => {
+                self.last_explicit = Some(tag(id, seg));
+                Outcome::Panic(PanicKind::Explicit)
+            }
             Resp::Unmocked => self.real(method, arg),
             Resp::DefaultImpl => self.default_body(method, arg),
         }
